@@ -21,7 +21,7 @@ import threading
 
 from vlib.runner import HarnessError
 
-WATCHDOG_S = 30.0
+WATCHDOG_S = float(_real_os.environ.get("C29_WATCHDOG_S", "30"))
 MAX_OPEN_ATTEMPTS = 64      # per run; far above (#runs + #foreign files + 1)
 
 _ACTIVE = None              # the Scheduler of the case being executed
